@@ -24,6 +24,7 @@ fn main() {
         ("body", "replay") => body::replay(&args[2..]),
         ("net", "replay") => net::replay(&args[2..]),
         ("gates", "replay") => gates::replay(&args[2..]),
+        ("gates", "record") => gates::record(&args[2..]),
         ("alloc", "replay") => alloc::replay(&args[2..]),
         ("alloc", "record") => alloc::record(&args[2..]),
         ("alloc", "sizes") => alloc::sizes(&args[2..]),
